@@ -101,9 +101,10 @@ theorem refChain_nonvolatile (m : Nat) : ∀ (acts : List Act) (r : RState), ref
       rw [cmdV_volatile h (hv act (by rw [← hacts]; simp))]
       exact hpv
 
-/-- no `vol` to the left of a `getvar` in any chain of the class -/
+/-- no `vol` to the left of a `getvar` or a `cvapp` in any chain of the class -/
 theorem safe_of_syntactic
-    (hsyn : ∀ acts act, P acts → acts.getLast? = some act → String.ofList act.name = "getvar" →
+    (hsyn : ∀ acts act, P acts → acts.getLast? = some act →
+      (String.ofList act.name = "getvar" ∨ String.ofList act.name = "cvapp") →
       ∀ b ∈ acts.dropLast, String.ofList b.name ≠ "vol") : Safe d P := by
   intro acts act hP hl hn m r hp
   unfold predRef at hp
